@@ -226,3 +226,11 @@ func everyIterationReaches(fn *ssa.Function, ins ssa.Instruction) (bool, string)
 	}
 	return true, ""
 }
+
+// derefType strips one pointer level.
+func derefType(t types.Type) types.Type {
+	if p, ok := t.Underlying().(*types.Pointer); ok {
+		return p.Elem()
+	}
+	return t
+}
